@@ -42,7 +42,8 @@ CLI_EVERY = 12
 def streams(ctx):
     return [("modules", ctx.scale(160, 3000)), ("hand", len(HAND)), ("header_comments", ctx.scale(24, 300)),
             ("big_modules", ctx.scale(8, 100)), ("prose_types", ctx.scale(24, 300)),
-            ("quote_prose", ctx.scale(32, 400)), ("repo_files", len(corpus.py_files(max_bytes=ctx.scale(4000, 12000))))]
+            ("quote_prose", ctx.scale(32, 400)), ("repo_files", len(corpus.py_files(max_bytes=ctx.scale(4000, 12000)))),
+            ("line_ends", ctx.scale(48, 600))]
 
 
 HAND = [
@@ -104,11 +105,17 @@ def judge(P, w, before, after, outcome, cfg, snap_diff, target_rel):
     feats = "style=%s,ta=%s" % (cfg["style"], cfg["ta"])
 
     header_comment = w.get("stream") == "header_comments" and has_header_comment(before)
+    variant = w.get("variant")
 
     def dev(kind, what, **extra):
         mech = ""
         if header_comment and kind.startswith(("program-changed", "line-changed", "output-not-python", "comments")):
             mech = "doctrans.comment-after-definition-header|"
+        # two recorded defects of how the file is read and written back, each bound to its own probe variant
+        if variant == "crlf" and kind.startswith("line-changed"):
+            mech = "doctrans.crlf-line-ends-rewritten-as-lf|"
+        if variant == "tabs" and kind.startswith("output-not-python"):
+            mech = "doctrans.tab-indented-module-output-invalid|"
         P.deviation(mech + "doctrans.%s|%s" % (kind, feats), what, dict(w, config=cfg, before=before, after=after, **extra))
 
     others = [p for p in fsnap.changed_paths(snap_diff) if p not in (target_rel,)]
@@ -164,7 +171,43 @@ def run_cli(path, cfg):
     return ("returned" if pr.returncode == 0 else "raised"), pr.stderr.decode()[-300:], 0
 
 
+def run_line_ends(ctx, P, stream, idx):
+    """the same modules as files are found in the wild: CRLF line ends, no newline at the end, a byte-order mark, tabs for
+    indentation - read and written back byte for byte (`newline=""`), so that a translated line end is seen"""
+    r = ctx.rng(stream, idx)
+    variant = ("crlf", "nonl", "bom", "tabs")[idx % 4]
+    src0 = progen.gen_module(r, n_items=r.randint(1, 3), prelude=False)
+    src = {"crlf": src0.replace("\n", "\r\n"), "nonl": src0.rstrip("\n"), "bom": "\ufeff" + src0,
+           "tabs": src0.replace("    ", "\t")}[variant]
+    try:
+        compile(src.lstrip("\ufeff"), "<generated>", "exec")
+    except SyntaxError:
+        P.count("line_ends.variant-not-python:" + variant)  # (tabs inside a continuation line, ...): not an input
+        return
+    d = tempfile.mkdtemp(prefix="vcdd-c07-")
+    try:
+        path = os.path.join(d, "mod.py")
+        cfg = {"style": r.choice(STYLES), "ta": r.random() < 0.5, "wrap": True, "via": "api"}
+        with open(path, "w", newline="") as f:
+            f.write(src)
+        P.case({"module": src, "cfg": cfg}, klass="line_ends/%s" % variant, sample={"variant": variant, "config": cfg,
+                                                                                  "module_head": src[:200]})
+        snap0 = fsnap.snapshot(d)
+        outcome, val, _ = run_api(path, cfg)
+        if outcome == "raised":
+            outcome = "raised:" + type(val).__name__
+        with open(path, newline="") as f:
+            after = f.read()
+        P.monitor("line-ends.observed")
+        judge(P, {"stream": stream, "idx": idx, "variant": variant}, src, after, outcome, cfg,
+              fsnap.diff(snap0, fsnap.snapshot(d)), "mod.py")
+    finally:
+        shutil.rmtree(d, ignore_errors=True)
+
+
 def run_case(ctx, P, stream, idx):
+    if stream == "line_ends":
+        return run_line_ends(ctx, P, stream, idx)
     r = ctx.rng(stream, idx)
     if stream == "header_comments":
         # probe: comments on / right after definition headers (`def f():  # why`): bound to one recorded finding
